@@ -40,6 +40,10 @@ def compare_costs(orig, emitted, push0, rnd, k):
         out["gas_states"] += 1
         if g2 > g1 and out["gas_worse"] is None:
             out["gas_worse"] = (st.to_json(), g1, g2)
+            # would the increase disappear if EXP were priced as the tool prices it (flat, one exponent byte)?
+            f1, _ = costs.metered_gas(orig, st, flat_exp=True)
+            f2, _ = costs.metered_gas(emitted, st, flat_exp=True)
+            out["only_exp_pricing"] = (f2 + adj_e) <= (f1 + adj_o)
         if g2 < g1:
             out["gas_better"] = True
         if g1 != g2:
@@ -116,6 +120,8 @@ def handle(case):
         _count("strictly_shorter")
     if c["gas_better"]:
         _count("strictly_cheaper_gas_on_some_state")
+    if why == "gas increased on some state" and c.get("only_exp_pricing") and any(n == "EXP" for n, _ in orig):
+        why = "gas increased only on states where EXP's exponent is shorter than the one byte the static price assumes"
     if why:
         res["viols"].append({"fingerprint": "criterion=%s: %s" % (crit, why),
                              "witness": {"in": evm.to_plain_string(orig), "out": evm.to_plain_string(emitted), "opts": opts,
